@@ -43,6 +43,8 @@ public class Float64 {
     public static Value FCbrt(final Value a) { return v(StrictMath.cbrt(d(a))); }
     public static Value FExp(final Value a) { return v(StrictMath.exp(d(a))); }
     public static Value FLn(final Value a) { return v(StrictMath.log(d(a))); }
+    public static Value FExpm1(final Value a) { return v(StrictMath.expm1(d(a))); }
+    public static Value FLog1p(final Value a) { return v(StrictMath.log1p(d(a))); }
     public static Value FLog10(final Value a) { return v(StrictMath.log10(d(a))); }
     public static Value FPow(final Value a, final Value c) { return v(StrictMath.pow(d(a), d(c))); }
     public static Value FSin(final Value a) { return v(StrictMath.sin(d(a))); }
